@@ -7,6 +7,7 @@ import (
 	"sync"
 	"context"
 	"fmt"
+	"io"
 	"net"
 	"strings"
 	"time"
@@ -56,6 +57,8 @@ type tcpCase struct {
 	Before     int  `json:"before,omitempty"`
 	Size       int  `json:"size,omitempty"`
 	Accepted   bool `json:"accepted,omitempty"`
+	DialSide   bool `json:"dial_side,omitempty"` // the transport under test is the one DialTcp returned (else the accepted one)
+	Trace      bool `json:"trace,omitempty"`     // a TraceWriter is configured
 	term       string
 }
 
@@ -313,11 +316,22 @@ func runReadCase(limit int, sizes []int, plan []string, n int) *tcpCase {
 // runAcceptedCase: a real TCP listener configured with read limit L (0: no configuration) on a loopback socket; the
 // transport it hands out reports its limit, then receives small frames totalling about `before` bytes and one frame
 // of `size` bytes.
-func runAcceptedCase(L, before, size int) (*tcpCase, error) {
-	c := &tcpCase{Form: "accepted", Configured: L, Before: before, Size: size}
+type discardTrace struct{ w io.Writer }
+
+func (d *discardTrace) SendWriter() *io.Writer    { return &d.w }
+func (d *discardTrace) ReceiveWriter() *io.Writer { return &d.w }
+
+func runAcceptedCase(L, before, size int, dialSide, trace bool) (*tcpCase, error) {
+	c := &tcpCase{Form: "accepted", Configured: L, Before: before, Size: size, DialSide: dialSide, Trace: trace}
 	var cfg *lime.TCPConfig
-	if L > 0 {
+	if L > 0 || trace {
 		cfg = &lime.TCPConfig{ReadLimit: int64(L)}
+		if trace {
+			cfg.TraceWriter = &discardTrace{w: io.Discard}
+		}
+	}
+	if dialSide {
+		return runDialedCase(c, cfg)
 	}
 	l := lime.NewTCPTransportListener(cfg)
 	addr, err := freeTCPAddr()
@@ -377,6 +391,70 @@ func runAcceptedCase(L, before, size int) (*tcpCase, error) {
 	return c, nil
 }
 
+// runDialedCase: the same through the transport DialTcp returns, fed by a raw server socket.
+func runDialedCase(c *tcpCase, cfg *lime.TCPConfig) (*tcpCase, error) {
+	ln, err := net.Listen("tcp", "127.0.0.1:0")
+	if err != nil {
+		return nil, err
+	}
+	defer ln.Close()
+	ctx, cancel := context.WithTimeout(context.Background(), 10*time.Second)
+	defer cancel()
+	accepted := make(chan net.Conn, 1)
+	go func() {
+		if conn, err := ln.Accept(); err == nil {
+			accepted <- conn
+		}
+	}()
+	ct, err := lime.DialTcp(ctx, ln.Addr(), cfg)
+	if err != nil {
+		return nil, err
+	}
+	defer ct.Close()
+	var conn net.Conn
+	select {
+	case conn = <-accepted:
+	case <-time.After(3 * time.Second):
+		return nil, fmt.Errorf("no connection accepted")
+	}
+	defer conn.Close()
+	rep := lime.VerifTCPReadBudget(ct)
+	switch {
+	case rep == lime.DefaultReadLimit:
+		c.Reported = 0
+	case rep > 99999:
+		c.Reported = 99999
+	default:
+		c.Reported = int(rep)
+	}
+	var stream []byte
+	i := 0
+	for len(stream) < c.Before {
+		f, _ := frameOfSize(i, minFrame(i)+5)
+		stream = append(stream, f...)
+		i++
+	}
+	small := i
+	big, ok := frameOfSize(i, c.Size)
+	if !ok {
+		return nil, fmt.Errorf("frame size below the minimum")
+	}
+	go func() { _, _ = conn.Write(append(stream, big...)) }()
+	for k := 0; k <= small; k++ {
+		rctx, rc := context.WithTimeout(ctx, 3*time.Second)
+		v, err := ct.Receive(rctx)
+		rc()
+		if err != nil {
+			break
+		}
+		if m, ok := v.(*lime.Message); ok && m.ID == fmt.Sprintf("f%d", small) {
+			c.Accepted = true
+		}
+	}
+	c.term = coqfmt.App("CAccepted", coqfmt.Nat(c.Configured), coqfmt.Nat(c.Reported), coqfmt.Nat(c.Before), coqfmt.Nat(c.Size), coqfmt.Bool(c.Accepted))
+	return c, nil
+}
+
 func tcpReplay(env *Env) (bool, error) {
 	var rc tcpCase
 	ok, err := env.ReplayDesc(&rc)
@@ -385,7 +463,7 @@ func tcpReplay(env *Env) (bool, error) {
 	}
 	var c *tcpCase
 	if rc.Form == "accepted" {
-		if c, err = runAcceptedCase(rc.Configured, rc.Before, rc.Size); err != nil {
+		if c, err = runAcceptedCase(rc.Configured, rc.Before, rc.Size, rc.DialSide, rc.Trace); err != nil {
 			return true, err
 		}
 	} else if rc.Form == "write" {
@@ -511,7 +589,7 @@ func init() {
 	register("C16", func(env *Env) error {
 		env.Header = tcpHeader + "Corr.C16."
 		env.ShardSize = 120
-		env.Rule = "limits 64, 100, 1000, 4096 x a frame of size around limit, limit+1, 2*limit, 2*limit+1, 2*limit+2 and 10*limit at every position 0..k of a stream of small frames x coalescing patterns (everything at once, chunks of 1/7/limit bytes, chunk boundaries just before and after the big frame); per Receive the bytes taken from the injected connection are counted exactly; plus transports handed out by a real listener configured with limits none/200/4096/65536 on a loopback socket (reported limit, frames within the limit and beyond twice the limit, first and behind three limits of small frames). Non-trivial: the stream contains a frame larger than the limit. Distinct by printed case."
+		env.Rule = "limits 64, 100, 1000, 4096 x a frame of size around limit, limit+1, 2*limit, 2*limit+1, 2*limit+2 and 10*limit at every position 0..k of a stream of small frames x coalescing patterns (everything at once, chunks of 1/7/limit bytes, chunk boundaries just before and after the big frame); per Receive the bytes taken from the injected connection are counted exactly; plus transports handed out by a real listener and returned by DialTcp, configured with limits none/200/4096/65536, with and without a TraceWriter, on a loopback socket (reported limit, frames within the limit and beyond twice the limit, first and behind three limits of small frames). Non-trivial: the stream contains a frame larger than the limit. Distinct by printed case."
 		if ok, err := tcpReplay(env); ok || err != nil {
 			return err
 		}
@@ -530,13 +608,18 @@ func init() {
 			}
 			for _, size := range sizes {
 				for _, before := range []int{0, 3 * (L + 100)} {
-					c, err := runAcceptedCase(L, before, size)
-					if err != nil {
-						return err
+					for v := 0; v < 4; v++ {
+						c, err := runAcceptedCase(L, before, size, v&1 != 0, v&2 != 0)
+						if err != nil {
+							return err
+						}
+						env.Add(c.term, c)
+						env.Count([]string{"accepted-by-listener", "returned-by-dial"}[v&1])
+						if v&2 != 0 {
+							env.Count("with-trace-writer")
+						}
+						env.NonTrivial(fmt.Sprintf("%s/%d", c.term, v))
 					}
-					env.Add(c.term, c)
-					env.Count("accepted-by-listener")
-					env.NonTrivial(c.term)
 				}
 			}
 		}
